@@ -840,7 +840,7 @@ Definition heap_ok (s : state) : Prop :=
 (* admissible events: alloc returns a fresh, non-NULL, word-aligned address *)
 Definition event_ok (s : state) (e : event) : Prop :=
   match e with
-  | EAlloc p _ _ => registered (st_reg s) p = false /\ p <> 0%N /\ (p mod 8 = 0)%N
+  | EAlloc p _ _ | EFinAlloc p _ _ => registered (st_reg s) p = false /\ p <> 0%N /\ (p mod 8 = 0)%N
   | _ => True
   end.
 
@@ -920,19 +920,19 @@ Section Threshold.
      is safe, and the registry-side invariants are kept *)
   Lemma threshold_collect_safe_lemma s e s1 extra :
     collection_point s e = Some (s1, extra) -> inv s1 -> heap_ok s1 ->
-    exists s' fin, step true true s e = Ok (s', fin) /\ collection_safe s1 extra fin s' /\ inv s'.
+    exists s' fin, step true true true s e = Ok (s', fin) /\ collection_safe s1 extra fin s' /\ inv s'.
   Proof.
-    intros Hcp Hinv Hok. destruct e as [p c root| | | |]; cbn [collection_point] in Hcp; try discriminate.
+    intros Hcp Hinv Hok. destruct e as [p c root| | | | |]; cbn [collection_point] in Hcp; try discriminate.
     - cbn [step]. destruct (st_mitems s <? st_nitems (alloc_state s p c root))%N; [|discriminate].
       inversion Hcp; subst. apply do_collect_safe; assumption.
     - inversion Hcp; subst. cbn [step]. apply do_collect_safe; assumption.
   Qed.
 
   Lemma inv_step s e s' fin :
-    inv s -> event_ok s e -> step true true s e = Ok (s', fin) ->
+    inv s -> event_ok s e -> step true true true s e = Ok (s', fin) ->
     (forall s1 extra, collection_point s e = Some (s1, extra) -> heap_ok s1) -> inv s'.
   Proof.
-    intros Hinv Hev Hstep Hok. destruct e as [p c root|p c|tls stack|p|].
+    intros Hinv Hev Hstep Hok. destruct e as [p c root|p c|tls stack|p' c' root'|p|].
     - cbn [step] in Hstep. pose proof (inv_alloc s p c root Hinv Hev) as Hinv1.
       destruct (st_mitems s <? st_nitems (alloc_state s p c root))%N eqn:E.
       + destruct (do_collect_safe (alloc_state s p c root) [p] Hinv1) as (s2 & fin2 & H2 & _ & I2).
@@ -941,6 +941,7 @@ Section Threshold.
       + inversion Hstep; subst. exact Hinv1.
     - cbn [step] in Hstep. inversion Hstep; subst. exact Hinv.
     - cbn [step] in Hstep. inversion Hstep; subst. exact Hinv.
+    - cbn [step fin_alloc_state] in Hstep. inversion Hstep; subst. apply inv_alloc; assumption.
     - cbn [step] in Hstep. destruct (registered (st_reg s) p) eqn:E; inversion Hstep; subst; [|exact Hinv].
       destruct Hinv as [Hr [Hnd Hin]]. split; cbn [st_reg st_minptr st_maxptr st_order].
       + intros q Hq. apply Hr. unfold registered in *. destruct (N.eq_dec q p) as [->|Hne].
@@ -958,33 +959,34 @@ Section Threshold.
 
   (* every history: as long as each event is admissible and the heap is well formed at each
      collection point, every step succeeds and every collection in it is safe *)
-  Fixpoint hist_safe (tr mg : bool) (s : state) (es : list event) : Prop :=
+  Fixpoint hist_safe (tr mg fw : bool) (s : state) (es : list event) : Prop :=
     match es with
     | [] => True
     | e :: r =>
       event_ok s e ->
       (forall s1 extra, collection_point s e = Some (s1, extra) -> heap_ok s1) ->
-      exists s' fin, step tr mg s e = Ok (s', fin)
+      exists s' fin, step tr mg fw s e = Ok (s', fin)
         /\ (forall s1 extra, collection_point s e = Some (s1, extra) -> collection_safe s1 extra fin s')
-        /\ hist_safe tr mg s' r
+        /\ hist_safe tr mg fw s' r
     end.
 
-  Lemma history_collect_safe_lemma : forall es s, inv s -> hist_safe true true s es.
+  Lemma history_collect_safe_lemma : forall es s, inv s -> hist_safe true true true s es.
   Proof.
     induction es as [|e r IH]; intros s Hinv; cbn [hist_safe]; [exact I|].
     intros Hev Hok.
     destruct (collection_point s e) as [[s1 extra]|] eqn:Hcp.
     - assert (Hinv1 : inv s1).
-      { destruct e as [p c root| | | |]; cbn [collection_point] in Hcp; try discriminate.
+      { destruct e as [p c root| | | | |]; cbn [collection_point] in Hcp; try discriminate.
         - destruct (st_mitems s <? st_nitems (alloc_state s p c root))%N; [|discriminate].
           inversion Hcp; subst. apply inv_alloc; assumption.
         - inversion Hcp; subst. exact Hinv. }
       destruct (threshold_collect_safe_lemma s e s1 extra Hcp Hinv1 (Hok _ _ eq_refl)) as (s' & fin & Hs & Hsafe & Hinv').
       exists s', fin. split; [exact Hs|]. split; [|apply IH; exact Hinv'].
       intros s1' extra' E. inversion E; subst. exact Hsafe.
-    - assert (Hs : exists s' fin, step true true s e = Ok (s', fin)).
-      { destruct e as [p c root|p c|tls stack|p|]; cbn [collection_point] in Hcp; cbn [step].
+    - assert (Hs : exists s' fin, step true true true s e = Ok (s', fin)).
+      { destruct e as [p c root|p c|tls stack|p' c' root'|p|]; cbn [collection_point] in Hcp; cbn [step].
         - destruct (st_mitems s <? st_nitems (alloc_state s p c root))%N; [discriminate|eauto].
+        - eauto.
         - eauto.
         - eauto.
         - destruct (registered (st_reg s) p); eauto.
@@ -1194,7 +1196,7 @@ Definition ex_state1 : state := alloc_state ex_state w64 (mk_contents KRef [w56]
 Lemma ex_threshold_point :
   event_ok ex_state ex_event /\
   collection_point ex_state ex_event = Some (ex_state1, [w64]) /\ inv ex_state1 /\ heap_ok ex_state1 /\
-  exists s', step true true ex_state ex_event = Ok (s', []).
+  exists s', step true true true ex_state ex_event = Ok (s', []).
 Proof.
   split; [|split; [|split; [|split]]].
   - split; [vm_compute; reflexivity|split; [discriminate|vm_compute; reflexivity]].
@@ -1203,4 +1205,32 @@ Proof.
   - split; [apply wf_b_sound; vm_compute; reflexivity|].
     exists (fun _ => 0). split; [intros p; lia|apply rawdec_b_sound; vm_compute; reflexivity].
   - eexists. vm_compute. reflexivity.
+Qed.
+
+(* ------------------------------------------------------------------ allocation by a finaliser during a sweep
+   history: a registered object w8 becomes garbage and is swept; its finaliser allocates w16 (GC_Set with
+   gc->freelist isnt NULL: registered, no collection) and publishes it into a stack slot; the next
+   collection must keep w16.  If GC_Set widens the window only after its early return (fin_widens =
+   false) the window stays [w8,w8], GC_Mark_Item rejects w16, and w16 is freed although reachable. *)
+Definition fin_hist : list event :=
+  [EAlloc w8 NoPtr false; ERoots [] []; ECollect; EFinAlloc w16 (Words []) false; ERoots [] [w16]; ECollect].
+
+Lemma fin_hist_kept_post :
+  exists s, run true true true st0 fin_hist = Ok (s, [[]; []; [w8]; []; []; []]).
+Proof. eexists. vm_compute. reflexivity. Qed.
+
+Lemma fin_hist_freed_pre :
+  exists s5 fr5 s6,
+    run true true false st0 (firstn 5 fin_hist) = Ok (s5, fr5) /\
+    registered (st_reg s5) w16 = true /\
+    reach (st_heap s5) (st_reg s5) (st_tls s5) (st_stack s5) w16 /\
+    ~ range_ok (st_reg s5) (st_minptr s5) (st_maxptr s5) /\
+    step true true false s5 ECollect = Ok (s6, [w16]).
+Proof.
+  eexists. eexists. eexists. split; [vm_compute; reflexivity|].
+  split; [vm_compute; reflexivity|]. split; [apply reach_stack; vm_compute; auto|].
+  split; [|vm_compute; reflexivity].
+  intros H. specialize (H w16). cbn [st_reg st_minptr st_maxptr] in H.
+  assert (Hr : (w16 mod 8 = 0 /\ 8 <= w16 /\ w16 <= 8)%N) by (apply H; vm_compute; reflexivity).
+  destruct Hr as (_ & _ & Hle). vm_compute in Hle. apply Hle. reflexivity.
 Qed.
